@@ -99,6 +99,16 @@ func DefaultResult(c *Call) (*resp.Value, error) {
 	switch c.Method {
 	case "Get", "HGet", "LIndex", "ZScore", "ZIncBy":
 		v = resp.Bs(tok)
+		if c.Method == "Get" {
+			// some stored values sit right below a decimal or binary boundary (as numbers) or have a boundary length
+			mix := c.Seq*3 + len(c.Sig)
+			switch (c.Seq + len(c.Sig)) % 6 {
+			case 3:
+				v = resp.Bs([]string{"9", "99", "999", "9999", "99999", "65535", "-1", "2147483647", "4294967295"}[mix%9])
+			case 5:
+				v = resp.Bs(strings.Repeat("x", []int{9, 10, 99, 100, 999, 1000, 9999, 10000, 65535, 65536}[mix%10]))
+			}
+		}
 	case "Set", "Rename", "Type", "Auth":
 		v = resp.St("T" + tok)
 	case "Del", "Exists", "Expire", "TTL", "HDel", "HSet", "LPush", "RPush", "LLen", "SAdd", "SRem", "ZAdd", "ZRem":
